@@ -522,8 +522,14 @@ func ppInstance(inst *flavors.Instance) slip.Object {
 }
 
 func appendSnapshotFunctions(b []byte, s *slip.Scope) []byte {
-	// Skip locked and imported packages.
-	for _, p := range slip.AllPackages() {
+	// Skip locked and imported packages. The others are taken in name order,
+	// AllPackages() lists them in the order they were made which is not the
+	// same after the snapshot has been loaded.
+	pkgs := slip.AllPackages()
+	sort.SliceStable(pkgs, func(i, j int) bool {
+		return pkgs[i].Name < pkgs[j].Name
+	})
+	for _, p := range pkgs {
 		if isCorePackage(p) {
 			continue
 		}
